@@ -85,6 +85,10 @@ impl Summary {
             self.nontrivial.insert(h64(k));
         }
     }
+    /// One evaluation, non-trivial (keyed by `key`) iff `cond`.
+    pub fn eval_if(&mut self, cond: bool, key: &str) {
+        self.eval(if cond { Some(key) } else { None });
+    }
     pub fn evals(&mut self, n: u64) {
         self.evaluations += n;
     }
